@@ -133,18 +133,34 @@ func c20Session(t *rapid.T) {
 	pv := filepath.Join(dir, "pv.sh")
 	os.WriteFile(pv, []byte(pvScript), 0o755)
 	logf := filepath.Join(dir, "pv.log")
+	// every template draws which of {n} / {q} it refers to (a literal stands in
+	// for an omitted placeholder so that the positions stay the same)
+	useN, useQ := true, true
+	drawUses := func() {
+		useN = rapid.IntRange(0, 3).Draw(t, "useN") != 0
+		useQ = rapid.IntRange(0, 2).Draw(t, "useQ") != 0
+	}
 	tmpl := func(m string) string {
 		item := "{}"
 		if useFile {
 			item = "{f}"
 			m += "-f"
 		}
-		c := fmt.Sprintf("sh %s %s %s {n} {q} %s", pv, logf, m, item)
+		nn, qq := "{n}", "{q}"
+		if !useN {
+			nn = "NON"
+		}
+		if !useQ {
+			qq = "NOQ"
+		}
+		c := fmt.Sprintf("sh %s %s %s %s %s %s", pv, logf, m, nn, qq, item)
 		if plus {
 			c += " {+}"
 		}
 		return c
 	}
+	drawUses()
+	startQ, qInstalled, qEditAfterInstall := useQ, false, false
 	args := []string{"--no-mouse", "--no-sort", "--preview", tmpl(mode), "--preview-window", "right,60%"}
 	multi := plus || rapid.Bool().Draw(t, "multi")
 	if multi {
@@ -156,8 +172,20 @@ func c20Session(t *rapid.T) {
 	curMode := mode
 	visible := true
 	superseded := false
+	nField := func(st *Status) string {
+		if useN {
+			return strconv.Itoa(st.Current.Index)
+		}
+		return "NON"
+	}
+	qField := func(st *Status) string {
+		if useQ {
+			return st.Query
+		}
+		return "NOQ"
+	}
 	expectedArgs := func(st *Status) string {
-		e := fmt.Sprintf("%s|%d|%s|%s", curMode, st.Current.Index, st.Query, st.Current.Text)
+		e := fmt.Sprintf("%s|%s|%s|%s", curMode, nField(st), qField(st), st.Current.Text)
 		if plus {
 			if len(st.Selected) == 0 {
 				e += "|" + st.Current.Text
@@ -187,7 +215,7 @@ func c20Session(t *rapid.T) {
 					} else if last := runs[len(runs)-1]; last.args != expectedArgs(st) {
 						why = fmt.Sprintf("the preview command that ran last got %q, the focused line / query / selection give %q", last.args, expectedArgs(st))
 					} else {
-						tok := fmt.Sprintf("TOK<%d/%s/%s>", st.Current.Index, st.Query, st.Current.Text)
+						tok := fmt.Sprintf("TOK<%s/%s/%s>", nField(st), qField(st), st.Current.Text)
 						if scr := strings.Join(s.Capture(), "\n"); !strings.Contains(scr, tok) && len(tok) < 60 {
 							why = fmt.Sprintf("the preview window does not show the output of the last run (%s)", tok)
 						}
@@ -234,7 +262,7 @@ func c20Session(t *rapid.T) {
 	nsteps := rapid.IntRange(3, 16).Draw(t, "steps")
 	for i := 0; i < nsteps; i++ {
 		a := rapid.SampledFrom([]string{"up", "down", "up", "down", "first", "last", "pos(3)", "put(a)", "put(b)", "backward-delete-char", "change-query(it1)", "clear-query", "toggle", "toggle-all", "refresh-preview",
-			"toggle-preview", "change-preview-window(up,50%)", "change-preview-window(right,60%)", "change-preview", "burst"}).Draw(t, "action")
+			"toggle-preview", "change-preview-window(up,50%)", "change-preview-window(right,60%)", "change-preview", "change-preview", "change-preview", "burst"}).Draw(t, "action")
 		gap := time.Duration(rapid.SampledFrom([]int{0, 0, 5, 30, 120, 200}).Draw(t, "gapMs")) * time.Millisecond
 		switch a {
 		case "toggle-preview":
@@ -243,6 +271,11 @@ func c20Session(t *rapid.T) {
 			visible = true // a window specification without "hidden" shows the window
 		case "change-preview":
 			curMode = rapid.SampledFrom([]string{"instant", "slow", "never", "chunks"}).Draw(t, "newMode")
+			wasQ := useQ
+			drawUses()
+			if !startQ && !wasQ && useQ {
+				qInstalled = true
+			}
 			a = "change-preview(" + tmpl(curMode) + ")"
 		case "toggle", "toggle-all":
 			if !multi {
@@ -257,6 +290,9 @@ func c20Session(t *rapid.T) {
 			history = append(history, fmt.Sprintf("burst of %d moves", k))
 			superseded = true
 			a = ""
+		}
+		if qInstalled && (strings.HasPrefix(a, "put(") || a == "backward-delete-char" || strings.HasPrefix(a, "change-query") || a == "clear-query") {
+			qEditAfterInstall = true
 		}
 		if a != "" {
 			history = append(history, "POST "+a)
@@ -298,7 +334,7 @@ func c20Session(t *rapid.T) {
 		time.Sleep(50 * time.Millisecond)
 	}
 	nt := superseded && curMode != "instant" || superseded && mode != "instant"
-	vstat.Case("C20/session", strings.Join(history, "|"), nt, "mode="+mode, fmt.Sprintf("useF=%v", useFile), fmt.Sprintf("plus=%v", plus), "end="+end)
+	vstat.Case("C20/session", strings.Join(history, "|"), nt, "mode="+mode, fmt.Sprintf("query_edit_after_change_preview_installed_q=%v", qEditAfterInstall), fmt.Sprintf("useF=%v", useFile), fmt.Sprintf("plus=%v", plus), "end="+end)
 	if nt && vstat.WantSample("C20/session") {
 		vstat.Sample("C20/session", map[string]interface{}{"history": history, "runs": len(readPvLog(logf))})
 	}
